@@ -47,16 +47,27 @@ def _ConvertType(t: LinearIR.Type) -> WebAssembly.Type:
     raise Exception(f"Unsupported type: {t}")
 
 
+def _ConvertValueType(t: LinearIR.Type) -> WebAssembly.ValueType:
+    # Parameters and results must be value types: a struct type written into a
+    # function signature is not valid WebAssembly
+    converted = _ConvertType(t)
+    if not isinstance(converted, WebAssembly.ValueType):
+        raise RuntimeError(
+            f"The WebAssembly backend cannot translate a parameter or result of type {t}"
+        )
+    return converted
+
+
 def _ConvertFunctionType(ft: LinearIR.FunctionType) -> WebAssembly.FunctionType:
     argTypes = []
     resultTypes = []
 
     for argType in ft.Arguments.values():
-        argTypes.append(_ConvertType(argType))
+        argTypes.append(_ConvertValueType(argType))
 
     # A function returning void has no result
     if not ft.ReturnType.IsVoid():
-        resultTypes.append(_ConvertType(ft.ReturnType))
+        resultTypes.append(_ConvertValueType(ft.ReturnType))
 
     return WebAssembly.FunctionType(argTypes, resultTypes)
 
